@@ -1,4 +1,4 @@
-From QV Require Import model.Base model.Lang model.Types model.Tir model.CfgCheck model.Builder model.Passes model.TirCase gen.GenE0 proofs.CfgProofs proofs.BuilderSafeSwitch proofs.BuilderCfg proofs.BuilderOpenCount props.C06.
+From QV Require Import model.Base model.Lang model.Types model.Tir model.CfgCheck model.Builder model.Passes model.TirCase gen.GenE0 proofs.CfgProofs proofs.BuilderSafeSwitch proofs.BuilderCfg proofs.BuilderOpenCount spec.Typing proofs.ReturnType props.C06.
 Open Scope nat_scope.
 Check (C06_checker_sound : forall c exempt, cfg_ok c exempt = true ->
   forall p, path (c_blocks c) p ->
@@ -28,3 +28,8 @@ Check (C06_every_block_terminated : forall E cb c, wf_callback cb = true -> bu_c
   forall i b, nth_error (c_blocks c) i = Some b -> b_term b <> None).
 Check (C06_walk_leaves_one_open_block : forall E cb env s, wf_callback cb = true -> walk_callback E cb bstate0 = (V (true, env), s) ->
   forall i b, i < List.length (bs_blocks s) - 1 -> nth_error (bs_blocks s) i = Some b -> b_term b <> None).
+Check (C06_every_return_fits_the_return_type : forall E c d t, resolve_return_type E c = Some d -> concrete d = Some t ->
+  Forall (fun a => spec_assignable E t (operand_tdesc a) = true) (return_operands c)).
+Check (C06_value_body_has_no_bare_return : forall E c d t, resolve_return_type E c = Some d -> concrete d = Some t -> t <> T_VOID ->
+  forall b, In b (c_blocks c) -> b_term b <> Some (TmReturn OVoid)).
+Check (C06_return_type_examples).
